@@ -396,7 +396,11 @@ def main():
         }],
         "checks": checks,
         "not_applicable": [{"property_id": p, "reason": NOT_YET} for p in props if p not in CLAIMS],
-        "notes": "See DESIGN.md. known_findings.json lists repaired (fixed:) and recorded (known) defects.",
+        "notes": ("See DESIGN.md (section 0: status, deviations, findings, corrected false alarms, what ~150 seeded changes taught; section 2: "
+                  "trusted base; section 4: per-property theorems and ties; section 8: which check catches which seeded change). "
+                  "known_findings.json lists the 30 genuine defects repaired by unguarded `fix:` commits in /repo (F1-F30, status fixed: they "
+                  "suppress nothing) and the one recorded finding K1 (C20, status known: printed as KNOWN-FINDING). No hooks were needed in /repo. "
+                  "evidence/coqchk.txt: independent re-check of all compiled property files, Axioms: <none>."),
     }
     json.dump(m, open(os.path.join(VERIF, "MANIFEST.json"), "w"), indent=1)
     print("claimed:", [c["property_id"] for c in checks])
